@@ -108,6 +108,8 @@ REPLAY_PROFILES = {
     'release': ({}, ['--release']),
     'dev-swar': ({'CARGO_CFG_HTTPARSE_DISABLE_SIMD': '1'}, []),
     'release-swar': ({'CARGO_CFG_HTTPARSE_DISABLE_SIMD': '1'}, ['--release']),
+    # release control flow (debug assertions off) with arithmetic overflow checks compiled in: turns a silent wrap into a panic
+    'release-swar-ovf': ({'CARGO_CFG_HTTPARSE_DISABLE_SIMD': '1', 'RUSTFLAGS': '-C overflow-checks=on'}, ['--release']),
     'dev-sse42': ({'RUSTFLAGS': '-C target-feature=+sse4.2'}, []),
     'release-sse42': ({'RUSTFLAGS': '-C target-feature=+sse4.2'}, ['--release']),
     'dev-avx2': ({'RUSTFLAGS': '-C target-feature=+avx2'}, []),
